@@ -75,6 +75,15 @@ def main(argv):
         return 2
     ctx = Ctx(prop, tier, seed)
     try:
+        import fingerprint
+        changed_fns = fingerprint.changed(common.REPO, os.path.join(common.VERIF, "fingerprints.json"))
+    except Exception:
+        changed_fns = []
+    if changed_fns:
+        # search guidance only: the source differs from the tree the model was written against -> look harder
+        ctx.budget = 3.0
+        ctx.report.notes.append("modelled functions that differ from the recorded fingerprints (budget x3): %s" % ", ".join(changed_fns[:12]))
+    try:
         with common.BuildLock():
             gen_info = common.gen_and_build_model()
             proofs = common.build_proofs(prop)
@@ -116,7 +125,7 @@ def main(argv):
     elif rep.disagreements or not proofs["ok"]:
         # a proof obligation or the correspondence broke: search for a concrete failing input
         ctx.searching = True
-        ctx.budget = 4.0 if tier == "quick" else 10.0
+        ctx.budget = max(ctx.budget, 1.0) * (4.0 if tier == "quick" else 10.0)
         found = None
         if hasattr(unit, "search"):
             try:
